@@ -153,6 +153,9 @@ func DescribeDir(c simnet.DirConfig) string {
 	if c.StallFor > 0 {
 		lat += fmt.Sprintf(" stall=%v@%d", c.StallFor, c.StallOff)
 	}
+	if c.EOFWithData {
+		lat += " last-bytes-come-with-EOF"
+	}
 	if c.EmptyReads > 0 {
 		return fmt.Sprintf("cap=%s frag=%s lat=%s empty-reads=1/%d", capS, frag, lat, c.EmptyReads)
 	}
